@@ -262,11 +262,15 @@ def tok_c(toks):
     return ' '.join(out)
 
 # the objects address constants point to (defined in every program)
-PRELUDE_OBJS = 'struct G { int x; char c[3]; long m; int arr[4]; };\nstruct G g; int arr[5]; char carr[10]; int gfun(void) { return 7; }\n'
+PRELUDE_OBJS = ('struct G { int x; char c[3]; long m; int arr[4]; struct { char p; struct { short q; int r[3]; } in; long w; } n; };\n'
+                'struct G g; int arr[5]; char carr[10]; int gfun(void) { return 7; }\n')
 ADDR_FORMS = [  # (C text, label, addend)
     ('&g', 'g', 0), ('&g.m', 'g', 8), ('&g.c[1]', 'g', 5), ('&g.arr[2]', 'g', 24), ('g.arr', 'g', 16), ('g.arr + 1', 'g', 20),
     ('(char *)&g + 3', 'g', 3), ('&arr[2]', 'arr', 8), ('arr + 1', 'arr', 4), ('arr', 'arr', 0), ('&arr[4] - 1', 'arr', 12),
     ('&carr[3]', 'carr', 3), ('carr + 9', 'carr', 9), ('carr', 'carr', 0), ('(void *)&g', 'g', 0), ('&*arr', 'arr', 0),
+    # member paths of two and three levels (the offsets of ALL members on the path add up), also through -> and with an addend
+    ('&g.n.p', 'g', 32), ('&g.n.in.q', 'g', 36), ('&g.n.in.r[2]', 'g', 48), ('g.n.in.r + 1', 'g', 44), ('&g.n.w', 'g', 56),
+    ('(char *)&g.n.in.q + 1', 'g', 37), ('&(&g)->n.in.r[1]', 'g', 44), ('&g.n.in', 'g', 36), ('(char *)&g.n + 3', 'g', 35),
 ]
 
 class Gen:
